@@ -109,7 +109,18 @@ func (r *reader) ReadTiles(tiles []tlog.Tile) ([][]byte, error) {
 	}
 	// apply faults (in order; coordinated forgeries look at already corrupted children)
 	for _, f := range r.faults {
-		if f.Pos >= len(tiles) {
+		if f.Pos >= len(tiles) || f.Pos >= len(out) {
+			continue
+		}
+		// answers of the wrong length: one tile missing from, or one too many in, the returned list
+		if f.Kind == "drop-answer" {
+			out = append(out[:f.Pos:f.Pos], out[f.Pos+1:]...)
+			r.applied++
+			continue
+		}
+		if f.Kind == "extra-answer" {
+			out = append(out, out[f.Pos])
+			r.applied++
 			continue
 		}
 		d, err := corrupt(r, tiles, out, f)
@@ -167,7 +178,7 @@ func menu(t tlog.Tile, reduced bool) []menuItem {
 			m = append(m, menuItem{"slot<-prev", j})
 		}
 	}
-	m = append(m, menuItem{"trunc-byte", 0}, menuItem{"trunc-hash", 0}, menuItem{"extend-hash", 0}, menuItem{"empty", 0}, menuItem{"zero", 0}, menuItem{"error", 0},
+	m = append(m, menuItem{"drop-answer", 0}, menuItem{"extra-answer", 0}, menuItem{"trunc-byte", 0}, menuItem{"trunc-hash", 0}, menuItem{"extend-hash", 0}, menuItem{"empty", 0}, menuItem{"zero", 0}, menuItem{"error", 0},
 		menuItem{"other-tile", -1}, menuItem{"other-tile", +1}, menuItem{"other-level", +1}, menuItem{"other-level", -1})
 	return m
 }
